@@ -27,6 +27,8 @@ TEMPLATES = {
     # a chain H-O-O-H listed so that an INNER atom comes after the neighbour it is reached from and before the next one
     "HOOH_scr": (["H", "O", "H", "O"], [(1.062, 0.6445, 0.6445), (-0.73, 0.0, 0.0), (-1.062, 0.6445, -0.6445), (0.73, 0.0, 0.0)], [(0, 3), (3, 1), (1, 2)]),
     "HOOH_rev": (["O", "H", "O", "H"], [(0.73, 0.0, 0.0), (-1.062, 0.6445, -0.6445), (-0.73, 0.0, 0.0), (1.062, 0.6445, 0.6445)], [(3, 0), (0, 2), (2, 1)]),
+    # dihydrogen: a bond between two hydrogens (0.74 A, threshold 1.02 A)
+    "H2": (["H", "H"], [(0.0, 0.0, 0.0), (0.74, 0.0, 0.0)], [(0, 1)]),
     "HHO": (["H", "H", "O"], [(0.757, 0.586, 0.0), (-0.757, 0.586, 0.0), (0.0, 0.0, 0.0)], [(0, 2), (1, 2)]),
 }
 
@@ -40,6 +42,7 @@ ZPRIME = {
     "1ooc": ["OOC"],
     "2hho_co": ["HHO", "CO"],
     "1hooh_scr": ["HOOH_scr"],
+    "2h2_h2o": ["H2", "H2O"],
     "2hooh_rev_h2o": ["HOOH_rev", "H2O"],
 }
 
